@@ -18,6 +18,17 @@
      wrapQuicStream.Close                   the control connection of a QUIC client: Close ends BOTH directions (CancelRead, then
                                             Stream.Close), so that the dispatcher's read fails and the teardown (y_end) runs
      CloseNotifyConn.Close, StatsConn.Close CwOnce of Model/ConnWrap.v
+     HTTPGroupController / TCPGroupCtl / TCPMuxGroupCtl Register / Listen, the groups' Register / Listen /
+       UnRegister / CloseListener           grp_join / grp_leave: lookup-or-create AND join under the controller's lock (deferred unlock),
+                                            so that a join cannot overlap the last leave; the leave takes the same lock
+     HTTPProxy.Run                          routes_run: a closeFn is appended only AFTER its registration succeeded
+     UDPProxy.Close                         Model/UdpLoop.v AClose1 / AClose2: isClosed, close(checkCloseCh) BEFORE workConn.Close()
+     TunnelServer.Run (ssh gateway)         a virtual client is a session like any other (y_end): every exit of Run after the
+                                            virtual client was started closes it
+     Dispatcher.sendLoop / readLoop / Send, Control.registerMsgHandlers
+                                            one control message = one step: NewProxy / CloseProxy / Ping handlers run inside the
+                                            read loop (not wrapped in AsyncHandler), doneCh is closed only by the read loop after
+                                            the handler in flight has returned, the send loop never closes it and keeps draining
      ProxyBaseConfig.UnmarshalFromMsg       the configured name IS the wire name: the four names RegisterProxy, CloseProxy and
                                             the teardown use (wire name for Exist / Add / the ctl.proxies lookup, pxy.GetName()
                                             for the ctl.proxies insert and Del) are one string in the model *)
@@ -254,6 +265,460 @@ Definition rel_pinned : list (string * list ef) := [
   ("pkg/util/net/conn.go:wrapQuicStream.Close", [
      Ef "call" ["$recv.Stream.CancelRead"; "0"];
      Ef "ret" ["$recv.Stream.Close()"]
+  ]);
+  ("server/group/http.go:HTTPGroupController.Register", [
+     Ef "local" ["$l0"; ":="; "$1"];
+     Ef "call" ["$recv.mu.Lock"];
+     Ef "defer" [];
+     Ef "call" ["$recv.mu.Unlock"];
+     Ef "end" [];
+     Ef "local" ["$l1"; ":="; "$recv.groups[$l0]#0"];
+     Ef "local" ["$l2"; ":="; "$recv.groups[$l0]#1"];
+     Ef "if" ["!$l2"];
+     Ef "local" ["$l1"; "="; "NewHTTPGroup($recv)"];
+     Ef "store" ["$recv.groups"; "$l0"; "$l1"];
+     Ef "end" [];
+     Ef "ret" ["$l1.Register($0, $1, $2, $3)"]
+  ]);
+  ("server/group/http.go:HTTPGroupController.UnRegister", [
+     Ef "local" ["$l0"; ":="; "$1"];
+     Ef "call" ["$recv.mu.Lock"];
+     Ef "defer" [];
+     Ef "call" ["$recv.mu.Unlock"];
+     Ef "end" [];
+     Ef "local" ["$l1"; ":="; "$recv.groups[$l0]#0"];
+     Ef "local" ["$l2"; ":="; "$recv.groups[$l0]#1"];
+     Ef "if" ["!$l2"];
+     Ef "ret" [];
+     Ef "end" [];
+     Ef "local" ["$l3"; ":="; "$l1.UnRegister($0)"];
+     Ef "if" ["$l3"];
+     Ef "delete" ["$recv.groups"; "$l0"];
+     Ef "end" []
+  ]);
+  ("server/group/http.go:HTTPGroup.Register", [
+     Ef "call" ["$recv.mu.Lock"];
+     Ef "defer" [];
+     Ef "call" ["$recv.mu.Unlock"];
+     Ef "end" [];
+     Ef "if" ["len($recv.createFuncs) == 0"];
+     Ef "local" ["$l0"; ":="; "$3"];
+     Ef "assign" ["$l0.CreateConnFn"; "="; "$recv.createConn"];
+     Ef "assign" ["$l0.ChooseEndpointFn"; "="; "$recv.chooseEndpoint"];
+     Ef "assign" ["$l0.CreateConnByEndpointFn"; "="; "$recv.createConnByEndpoint"];
+     Ef "local" ["$r0"; "="; "$recv.ctl.vhostRouter.Add($3.Domain, $3.Location, $3.RouteByHTTPUser, &$l0)"];
+     Ef "if" ["$r0 != nil"];
+     Ef "ret" [];
+     Ef "end" [];
+     Ef "assign" ["$recv.group"; "="; "$1"];
+     Ef "assign" ["$recv.groupKey"; "="; "$2"];
+     Ef "assign" ["$recv.domain"; "="; "$3.Domain"];
+     Ef "assign" ["$recv.location"; "="; "$3.Location"];
+     Ef "assign" ["$recv.routeByHTTPUser"; "="; "$3.RouteByHTTPUser"];
+     Ef "assign" ["$recv.username"; "="; "$3.Username"];
+     Ef "assign" ["$recv.password"; "="; "$3.Password"];
+     Ef "else" [];
+     Ef "if" ["$recv.group != $1 || $recv.domain != $3.Domain || $recv.location != $3.Location || $recv.routeByHTTPUser != $3.RouteByHTTPUser || $recv.username != $3.Username || $recv.password != $3.Password"];
+     Ef "local" ["$r0"; "="; "ErrGroupParamsInvalid"];
+     Ef "ret" [];
+     Ef "end" [];
+     Ef "if" ["$recv.groupKey != $2"];
+     Ef "local" ["$r0"; "="; "ErrGroupAuthFailed"];
+     Ef "ret" [];
+     Ef "end" [];
+     Ef "end" [];
+     Ef "local" ["$l1"; ":="; "$recv.createFuncs[$0]#1"];
+     Ef "if" ["$l1"];
+     Ef "local" ["$r0"; "="; "ErrProxyRepeated"];
+     Ef "ret" [];
+     Ef "end" [];
+     Ef "store" ["$recv.createFuncs"; "$0"; "$3.CreateConnFn"];
+     Ef "assign" ["$recv.pxyNames"; "="; "append($recv.pxyNames, $0)"];
+     Ef "ret" ["nil"]
+  ]);
+  ("server/group/http.go:HTTPGroup.UnRegister", [
+     Ef "call" ["$recv.mu.Lock"];
+     Ef "defer" [];
+     Ef "call" ["$recv.mu.Unlock"];
+     Ef "end" [];
+     Ef "delete" ["$recv.createFuncs"; "$0"];
+     Ef "loop" ["range"; "$recv.pxyNames"; "$l0"; "$l1"];
+     Ef "if" ["$l1 == $0"];
+     Ef "assign" ["$recv.pxyNames"; "="; "append($recv.pxyNames[:$l0], $recv.pxyNames[$l0 + 1:])"];
+     Ef "branch" ["break"];
+     Ef "end" [];
+     Ef "end" [];
+     Ef "if" ["len($recv.createFuncs) == 0"];
+     Ef "local" ["$r0"; "="; "true"];
+     Ef "call" ["$recv.ctl.vhostRouter.Del"; "$recv.domain"; "$recv.location"; "$recv.routeByHTTPUser"];
+     Ef "end" [];
+     Ef "ret" []
+  ]);
+  ("server/group/tcp.go:TCPGroupCtl.Listen", [
+     Ef "call" ["$recv.mu.Lock"];
+     Ef "defer" [];
+     Ef "call" ["$recv.mu.Unlock"];
+     Ef "end" [];
+     Ef "local" ["$l0"; ":="; "$recv.groups[$1]#0"];
+     Ef "local" ["$l1"; ":="; "$recv.groups[$1]#1"];
+     Ef "if" ["!$l1"];
+     Ef "local" ["$l0"; "="; "NewTCPGroup($recv)"];
+     Ef "store" ["$recv.groups"; "$1"; "$l0"];
+     Ef "end" [];
+     Ef "ret" ["$l0.Listen($0, $1, $2, $3, $4)"]
+  ]);
+  ("server/group/tcp.go:TCPGroup.Listen", [
+     Ef "call" ["$recv.mu.Lock"];
+     Ef "defer" [];
+     Ef "call" ["$recv.mu.Unlock"];
+     Ef "end" [];
+     Ef "if" ["len($recv.lns) == 0"];
+     Ef "local" ["$r1"; "="; "$recv.ctl.portManager.Acquire($0, $4)#0"];
+     Ef "local" ["$r2"; "="; "$recv.ctl.portManager.Acquire($0, $4)#1"];
+     Ef "if" ["$r2 != nil"];
+     Ef "ret" [];
+     Ef "end" [];
+     Ef "local" ["$l0"; ":="; "net.Listen(""tcp"", net.JoinHostPort($3, strconv.Itoa($r1)))#0"];
+     Ef "local" ["$l1"; ":="; "net.Listen(""tcp"", net.JoinHostPort($3, strconv.Itoa($r1)))#1"];
+     Ef "if" ["$l1 != nil"];
+     Ef "call" ["$recv.ctl.portManager.Release"; "$r1"];
+     Ef "local" ["$r2"; "="; "$l1"];
+     Ef "ret" [];
+     Ef "end" [];
+     Ef "local" ["$r0"; "="; "newTCPGroupListener($1, $recv, $l0.Addr())"];
+     Ef "assign" ["$recv.group"; "="; "$1"];
+     Ef "assign" ["$recv.groupKey"; "="; "$2"];
+     Ef "assign" ["$recv.addr"; "="; "$3"];
+     Ef "assign" ["$recv.port"; "="; "$4"];
+     Ef "assign" ["$recv.realPort"; "="; "$r1"];
+     Ef "assign" ["$recv.tcpLn"; "="; "$l0"];
+     Ef "assign" ["$recv.lns"; "="; "append($recv.lns, $r0)"];
+     Ef "if" ["$recv.acceptCh == nil"];
+     Ef "assign" ["$recv.acceptCh"; "="; "make(chan net.Conn)"];
+     Ef "end" [];
+     Ef "go" [];
+     Ef "call" ["$recv.worker"];
+     Ef "end" [];
+     Ef "else" [];
+     Ef "if" ["$recv.group != $1 || $recv.addr != $3"];
+     Ef "local" ["$r2"; "="; "ErrGroupParamsInvalid"];
+     Ef "ret" [];
+     Ef "end" [];
+     Ef "if" ["$recv.port != $4"];
+     Ef "local" ["$r2"; "="; "ErrGroupDifferentPort"];
+     Ef "ret" [];
+     Ef "end" [];
+     Ef "if" ["$recv.groupKey != $2"];
+     Ef "local" ["$r2"; "="; "ErrGroupAuthFailed"];
+     Ef "ret" [];
+     Ef "end" [];
+     Ef "local" ["$r0"; "="; "newTCPGroupListener($1, $recv, $recv.lns[0].Addr())"];
+     Ef "local" ["$r1"; "="; "$recv.realPort"];
+     Ef "assign" ["$recv.lns"; "="; "append($recv.lns, $r0)"];
+     Ef "end" [];
+     Ef "ret" []
+  ]);
+  ("server/group/tcp.go:TCPGroup.CloseListener", [
+     Ef "call" ["$recv.ctl.mu.Lock"];
+     Ef "defer" [];
+     Ef "call" ["$recv.ctl.mu.Unlock"];
+     Ef "end" [];
+     Ef "call" ["$recv.mu.Lock"];
+     Ef "defer" [];
+     Ef "call" ["$recv.mu.Unlock"];
+     Ef "end" [];
+     Ef "loop" ["range"; "$recv.lns"; "$l0"; "$l1"];
+     Ef "if" ["$l1 == $0"];
+     Ef "assign" ["$recv.lns"; "="; "append($recv.lns[:$l0], $recv.lns[$l0 + 1:])"];
+     Ef "branch" ["break"];
+     Ef "end" [];
+     Ef "end" [];
+     Ef "if" ["len($recv.lns) == 0"];
+     Ef "call" ["close"; "$recv.acceptCh"];
+     Ef "call" ["$recv.tcpLn.Close"];
+     Ef "call" ["$recv.ctl.portManager.Release"; "$recv.realPort"];
+     Ef "delete" ["$recv.ctl.groups"; "$recv.group"];
+     Ef "end" []
+  ]);
+  ("server/group/tcpmux.go:TCPMuxGroupCtl.Listen", [
+     Ef "call" ["$recv.mu.Lock"];
+     Ef "defer" [];
+     Ef "call" ["$recv.mu.Unlock"];
+     Ef "end" [];
+     Ef "local" ["$l0"; ":="; "$recv.groups[$2]#0"];
+     Ef "local" ["$l1"; ":="; "$recv.groups[$2]#1"];
+     Ef "if" ["!$l1"];
+     Ef "local" ["$l0"; "="; "NewTCPMuxGroup($recv)"];
+     Ef "store" ["$recv.groups"; "$2"; "$l0"];
+     Ef "end" [];
+     Ef "switch" ["v1.TCPMultiplexerType($1)"];
+     Ef "case" ["v1.TCPMultiplexerHTTPConnect"];
+     Ef "ret" ["$l0.HTTPConnectListen($0, $2, $3, $4)"];
+     Ef "case" [];
+     Ef "local" ["$r1"; "="; "fmt.Errorf(""unknown multiplexer [%s]"", $1)"];
+     Ef "ret" [];
+     Ef "end" []
+  ]);
+  ("server/group/tcpmux.go:TCPMuxGroup.HTTPConnectListen", [
+     Ef "call" ["$recv.mu.Lock"];
+     Ef "defer" [];
+     Ef "call" ["$recv.mu.Unlock"];
+     Ef "end" [];
+     Ef "if" ["len($recv.lns) == 0"];
+     Ef "local" ["$l0"; ":="; "$recv.ctl.tcpMuxHTTPConnectMuxer.Listen($0, &$3)#0"];
+     Ef "local" ["$l1"; ":="; "$recv.ctl.tcpMuxHTTPConnectMuxer.Listen($0, &$3)#1"];
+     Ef "if" ["$l1 != nil"];
+     Ef "ret" ["nil"; "$l1"];
+     Ef "end" [];
+     Ef "local" ["$r0"; "="; "newTCPMuxGroupListener($1, $recv, $l0.Addr())"];
+     Ef "assign" ["$recv.group"; "="; "$1"];
+     Ef "assign" ["$recv.groupKey"; "="; "$2"];
+     Ef "assign" ["$recv.domain"; "="; "$3.Domain"];
+     Ef "assign" ["$recv.routeByHTTPUser"; "="; "$3.RouteByHTTPUser"];
+     Ef "assign" ["$recv.username"; "="; "$3.Username"];
+     Ef "assign" ["$recv.password"; "="; "$3.Password"];
+     Ef "assign" ["$recv.tcpMuxLn"; "="; "$l0"];
+     Ef "assign" ["$recv.lns"; "="; "append($recv.lns, $r0)"];
+     Ef "if" ["$recv.acceptCh == nil"];
+     Ef "assign" ["$recv.acceptCh"; "="; "make(chan net.Conn)"];
+     Ef "end" [];
+     Ef "go" [];
+     Ef "call" ["$recv.worker"];
+     Ef "end" [];
+     Ef "else" [];
+     Ef "if" ["$recv.group != $1 || $recv.domain != $3.Domain || $recv.routeByHTTPUser != $3.RouteByHTTPUser || $recv.username != $3.Username || $recv.password != $3.Password"];
+     Ef "ret" ["nil"; "ErrGroupParamsInvalid"];
+     Ef "end" [];
+     Ef "if" ["$recv.groupKey != $2"];
+     Ef "ret" ["nil"; "ErrGroupAuthFailed"];
+     Ef "end" [];
+     Ef "local" ["$r0"; "="; "newTCPMuxGroupListener($1, $recv, $recv.lns[0].Addr())"];
+     Ef "assign" ["$recv.lns"; "="; "append($recv.lns, $r0)"];
+     Ef "end" [];
+     Ef "ret" []
+  ]);
+  ("server/group/tcpmux.go:TCPMuxGroup.CloseListener", [
+     Ef "call" ["$recv.ctl.mu.Lock"];
+     Ef "defer" [];
+     Ef "call" ["$recv.ctl.mu.Unlock"];
+     Ef "end" [];
+     Ef "call" ["$recv.mu.Lock"];
+     Ef "defer" [];
+     Ef "call" ["$recv.mu.Unlock"];
+     Ef "end" [];
+     Ef "loop" ["range"; "$recv.lns"; "$l0"; "$l1"];
+     Ef "if" ["$l1 == $0"];
+     Ef "assign" ["$recv.lns"; "="; "append($recv.lns[:$l0], $recv.lns[$l0 + 1:])"];
+     Ef "branch" ["break"];
+     Ef "end" [];
+     Ef "end" [];
+     Ef "if" ["len($recv.lns) == 0"];
+     Ef "call" ["close"; "$recv.acceptCh"];
+     Ef "call" ["$recv.tcpMuxLn.Close"];
+     Ef "delete" ["$recv.ctl.groups"; "$recv.group"];
+     Ef "end" []
+  ]);
+  ("server/proxy/http.go:HTTPProxy.Run", [
+     Ef "local" ["$l0"; ":="; "$recv.xl"];
+     Ef "local" ["$l1"; ":="; "vhost.RouteConfig{RewriteHost: $recv.cfg.HostHeaderRewrite, RouteByHTTPUser: $recv.cfg.RouteByHTTPUser, Headers: $recv.cfg.RequestHeaders.Set, ResponseHeaders: $recv.cfg.ResponseHeaders.Set, Username: $recv.cfg.HTTPUser, Password: $recv.cfg.HTTPPassword, CreateConnFn: $recv.GetRealConn}"];
+     Ef "local" ["$l2"; ":="; "$recv.cfg.Locations"];
+     Ef "if" ["len($l2) == 0"];
+     Ef "local" ["$l2"; "="; "[]string{""""}"];
+     Ef "end" [];
+     Ef "defer" [];
+     Ef "if" ["$r1 != nil"];
+     Ef "call" ["$recv.Close"];
+     Ef "end" [];
+     Ef "end" [];
+     Ef "local" ["$l3"; ":="; "make([]string, 0)"];
+     Ef "loop" ["range"; "$recv.cfg.CustomDomains"; "_"; "$l4"];
+     Ef "if" ["$l4 == """""];
+     Ef "branch" ["continue"];
+     Ef "end" [];
+     Ef "assign" ["$l1.Domain"; "="; "$l4"];
+     Ef "loop" ["range"; "$l2"; "_"; "$l5"];
+     Ef "assign" ["$l1.Location"; "="; "$l5"];
+     Ef "local" ["$l6"; ":="; "$l1"];
+     Ef "if" ["$recv.cfg.LoadBalancer.Group != """""];
+     Ef "local" ["$r1"; "="; "$recv.rc.HTTPGroupCtl.Register($recv.name, $recv.cfg.LoadBalancer.Group, $recv.cfg.LoadBalancer.GroupKey, $l1)"];
+     Ef "if" ["$r1 != nil"];
+     Ef "ret" [];
+     Ef "end" [];
+     Ef "assign" ["$recv.closeFuncs"; "="; "append($recv.closeFuncs, func)"];
+     Ef "else" [];
+     Ef "local" ["$r1"; "="; "$recv.rc.HTTPReverseProxy.Register($l1)"];
+     Ef "if" ["$r1 != nil"];
+     Ef "ret" [];
+     Ef "end" [];
+     Ef "assign" ["$recv.closeFuncs"; "="; "append($recv.closeFuncs, func)"];
+     Ef "end" [];
+     Ef "local" ["$l3"; "="; "append($l3, util.CanonicalAddr($l1.Domain, $recv.serverCfg.VhostHTTPPort))"];
+     Ef "end" [];
+     Ef "end" [];
+     Ef "if" ["$recv.cfg.SubDomain != """""];
+     Ef "assign" ["$l1.Domain"; "="; "$recv.cfg.SubDomain + ""."" + $recv.serverCfg.SubDomainHost"];
+     Ef "loop" ["range"; "$l2"; "_"; "$l5"];
+     Ef "assign" ["$l1.Location"; "="; "$l5"];
+     Ef "local" ["$l6"; ":="; "$l1"];
+     Ef "if" ["$recv.cfg.LoadBalancer.Group != """""];
+     Ef "local" ["$r1"; "="; "$recv.rc.HTTPGroupCtl.Register($recv.name, $recv.cfg.LoadBalancer.Group, $recv.cfg.LoadBalancer.GroupKey, $l1)"];
+     Ef "if" ["$r1 != nil"];
+     Ef "ret" [];
+     Ef "end" [];
+     Ef "assign" ["$recv.closeFuncs"; "="; "append($recv.closeFuncs, func)"];
+     Ef "else" [];
+     Ef "local" ["$r1"; "="; "$recv.rc.HTTPReverseProxy.Register($l1)"];
+     Ef "if" ["$r1 != nil"];
+     Ef "ret" [];
+     Ef "end" [];
+     Ef "assign" ["$recv.closeFuncs"; "="; "append($recv.closeFuncs, func)"];
+     Ef "end" [];
+     Ef "local" ["$l3"; "="; "append($l3, util.CanonicalAddr($l6.Domain, $recv.serverCfg.VhostHTTPPort))"];
+     Ef "end" [];
+     Ef "end" [];
+     Ef "local" ["$r0"; "="; "strings.Join($l3, "","")"];
+     Ef "ret" []
+  ]);
+  ("pkg/ssh/server.go:TunnelServer.Run", [
+     Ef "local" ["$l0"; ":="; "ssh.NewServerConn($recv.underlyingConn, $recv.sc)#0"];
+     Ef "local" ["$l1"; ":="; "ssh.NewServerConn($recv.underlyingConn, $recv.sc)#1"];
+     Ef "local" ["$l2"; ":="; "ssh.NewServerConn($recv.underlyingConn, $recv.sc)#2"];
+     Ef "local" ["$l3"; ":="; "ssh.NewServerConn($recv.underlyingConn, $recv.sc)#3"];
+     Ef "if" ["$l3 != nil"];
+     Ef "ret" ["$l3"];
+     Ef "end" [];
+     Ef "assign" ["$recv.sshConn"; "="; "$l0"];
+     Ef "local" ["$l4"; ":="; "$recv.waitForwardAddrAndExtraPayload($l1, $l2, 3 * time.Second)#0"];
+     Ef "local" ["$l5"; ":="; "$recv.waitForwardAddrAndExtraPayload($l1, $l2, 3 * time.Second)#1"];
+     Ef "local" ["$l3"; ":="; "$recv.waitForwardAddrAndExtraPayload($l1, $l2, 3 * time.Second)#2"];
+     Ef "if" ["$l3 != nil"];
+     Ef "ret" ["$l3"];
+     Ef "end" [];
+     Ef "local" ["$l6"; ":="; "$recv.parseClientAndProxyConfigurer($l4, $l5)#0"];
+     Ef "local" ["$l7"; ":="; "$recv.parseClientAndProxyConfigurer($l4, $l5)#1"];
+     Ef "local" ["$l8"; ":="; "$recv.parseClientAndProxyConfigurer($l4, $l5)#2"];
+     Ef "local" ["$l3"; ":="; "$recv.parseClientAndProxyConfigurer($l4, $l5)#3"];
+     Ef "if" ["$l3 != nil"];
+     Ef "if" ["errors.Is($l3, flag.ErrHelp)"];
+     Ef "call" ["$recv.writeToClient"; "$l8"];
+     Ef "ret" ["nil"];
+     Ef "end" [];
+     Ef "call" ["$recv.writeToClient"; "$l3.Error()"];
+     Ef "ret" ["fmt.Errorf(""parse flags from ssh client error: %v"", $l3)"];
+     Ef "end" [];
+     Ef "call" ["$l6.Complete"];
+     Ef "if" ["$l0.Permissions != nil"];
+     Ef "assign" ["$l6.User"; "="; "util.EmptyOr($l0.Permissions.Extensions[""user""], $l6.User)"];
+     Ef "end" [];
+     Ef "call" ["$l7.Complete"; "$l6.User"];
+     Ef "local" ["$l9"; ":="; "virtual.NewClient(virtual.ClientOptions{Common: $l6, Spec: &msg.ClientSpec{Type: ""ssh-tunnel"", AlwaysAuthPass: !$recv.sc.NoClientAuth}, HandleWorkConnCb: func})#0"];
+     Ef "local" ["$l3"; ":="; "virtual.NewClient(virtual.ClientOptions{Common: $l6, Spec: &msg.ClientSpec{Type: ""ssh-tunnel"", AlwaysAuthPass: !$recv.sc.NoClientAuth}, HandleWorkConnCb: func})#1"];
+     Ef "if" ["$l3 != nil"];
+     Ef "ret" ["$l3"];
+     Ef "end" [];
+     Ef "assign" ["$recv.vc"; "="; "$l9"];
+     Ef "go" [];
+     Ef "local" ["$l10"; ":="; "$recv.vc.PeerListener()"];
+     Ef "loop" [""];
+     Ef "local" ["$l11"; ":="; "$l10.Accept()#0"];
+     Ef "local" ["$l3"; ":="; "$l10.Accept()#1"];
+     Ef "if" ["$l3 != nil"];
+     Ef "ret" [];
+     Ef "end" [];
+     Ef "end" [];
+     Ef "end" [];
+     Ef "local" ["$l12"; ":="; "xlog.New().AddPrefix(xlog.LogPrefix{Name: ""sshVirtualClient"", Value: ""sshVirtualClient"", Priority: 100})"];
+     Ef "local" ["$l13"; ":="; "xlog.NewContext(context.Background(), $l12)"];
+     Ef "go" [];
+     Ef "local" ["$l14"; ":="; "$recv.vc.Run($l13)"];
+     Ef "if" ["$l14 != nil"];
+     Ef "call" ["$recv.writeToClient"; "$l14.Error()"];
+     Ef "end" [];
+     Ef "call" ["$recv.closeDoneChOnce.Do"; "func"];
+     Ef "func" [];
+     Ef "call" ["close"; "$recv.doneCh"];
+     Ef "end" [];
+     Ef "end" [];
+     Ef "call" ["$recv.vc.UpdateProxyConfigurer"; "[]v1.ProxyConfigurer{$l7}"];
+     Ef "local" ["$l15"; ":="; "$recv.waitProxyStatusReady($l7.GetBaseConfig().Name, time.Second)#0"];
+     Ef "local" ["$l3"; ":="; "$recv.waitProxyStatusReady($l7.GetBaseConfig().Name, time.Second)#1"];
+     Ef "if" ["$l3 != nil"];
+     Ef "call" ["$recv.writeToClient"; "$l3.Error()"];
+     Ef "else" [];
+     Ef "call" ["$recv.writeToClient"; "createSuccessInfo($l6.User, $l7, $l15)"];
+     Ef "end" [];
+     Ef "call" ["$recv.vc.Close"];
+     Ef "call" ["$recv.closeDoneChOnce.Do"; "func"];
+     Ef "func" [];
+     Ef "call" ["close"; "$recv.doneCh"];
+     Ef "end" [];
+     Ef "ret" ["nil"]
+  ]);
+  ("server/proxy/udp.go:UDPProxy.Close", [
+     Ef "call" ["$recv.mu.Lock"];
+     Ef "defer" [];
+     Ef "call" ["$recv.mu.Unlock"];
+     Ef "end" [];
+     Ef "if" ["!$recv.isClosed"];
+     Ef "assign" ["$recv.isClosed"; "="; "true"];
+     Ef "call" ["$recv.BaseProxy.Close"];
+     Ef "call" ["close"; "$recv.checkCloseCh"];
+     Ef "if" ["$recv.workConn != nil"];
+     Ef "call" ["$recv.workConn.Close"];
+     Ef "end" [];
+     Ef "call" ["$recv.udpConn.Close"];
+     Ef "call" ["close"; "$recv.readCh"];
+     Ef "call" ["close"; "$recv.sendCh"];
+     Ef "call" ["$recv.rc.UDPPortManager.Release"; "$recv.realBindPort"];
+     Ef "end" []
+  ]);
+  ("pkg/msg/handler.go:Dispatcher.sendLoop", [
+     Ef "loop" [""];
+     Ef "select" [];
+     Ef "case" [];
+     Ef "expr" ["<-$recv.doneCh"];
+     Ef "ret" [];
+     Ef "case" [];
+     Ef "local" ["$l0"; ":="; "<-$recv.sendCh"];
+     Ef "end" [];
+     Ef "end" []
+  ]);
+  ("pkg/msg/handler.go:Dispatcher.readLoop", [
+     Ef "loop" [""];
+     Ef "local" ["$l0"; ":="; "ReadMsg($recv.rw)#0"];
+     Ef "local" ["$l1"; ":="; "ReadMsg($recv.rw)#1"];
+     Ef "if" ["$l1 != nil"];
+     Ef "call" ["close"; "$recv.doneCh"];
+     Ef "ret" [];
+     Ef "end" [];
+     Ef "local" ["$l2"; ":="; "$recv.msgHandlers[reflect.TypeOf($l0)]#0"];
+     Ef "local" ["$l3"; ":="; "$recv.msgHandlers[reflect.TypeOf($l0)]#1"];
+     Ef "if" ["$l3"];
+     Ef "call" ["$l2"; "$l0"];
+     Ef "else" [];
+     Ef "if" ["$recv.defaultHandler != nil"];
+     Ef "call" ["$recv.defaultHandler"; "$l0"];
+     Ef "end" [];
+     Ef "end" [];
+     Ef "end" []
+  ]);
+  ("pkg/msg/handler.go:Dispatcher.Send", [
+     Ef "select" [];
+     Ef "case" [];
+     Ef "expr" ["<-$recv.doneCh"];
+     Ef "ret" ["io.EOF"];
+     Ef "case" [];
+     Ef "send" ["$recv.sendCh"; "$0"];
+     Ef "ret" ["nil"];
+     Ef "end" []
+  ]);
+  ("server/control.go:Control.registerMsgHandlers", [
+     Ef "call" ["$recv.msgDispatcher.RegisterHandler"; "&msg.NewProxy{}"; "$recv.handleNewProxy"];
+     Ef "call" ["$recv.msgDispatcher.RegisterHandler"; "&msg.Ping{}"; "$recv.handlePing"];
+     Ef "call" ["$recv.msgDispatcher.RegisterHandler"; "&msg.NatHoleVisitor{}"; "msg.AsyncHandler($recv.handleNatHoleVisitor)"];
+     Ef "call" ["$recv.msgDispatcher.RegisterHandler"; "&msg.NatHoleClient{}"; "msg.AsyncHandler($recv.handleNatHoleClient)"];
+     Ef "call" ["$recv.msgDispatcher.RegisterHandler"; "&msg.NatHoleReport{}"; "msg.AsyncHandler($recv.handleNatHoleReport)"];
+     Ef "call" ["$recv.msgDispatcher.RegisterHandler"; "&msg.CloseProxy{}"; "$recv.handleCloseProxy"]
   ]);
   ("pkg/util/net/conn.go:CloseNotifyConn.Close", [
      Ef "local" ["$l0"; ":="; "atomic.SwapInt32(&$recv.closeFlag, 1)"];
